@@ -15,9 +15,9 @@ def run(tier, seed):
     standard_front(chk, 'Props/C19.v', needs_items=(), extra_vo=('Model/Format.v', 'Proofs/FormatP.v', 'Proofs/FormatR.v', 'Proofs/ReportS.v', 'Corr/FmtDriver.v'))
     rng = random.Random(seed)
     q = tier == 'quick'
-    stage_rep.run_fmt(chk, rng, 4000 if q else 60000)
+    stage_rep.run_fmt(chk, rng, 4000 if q else 240000)
     cases = [dict(id=i, seed=rng.randrange(10 ** 9), spec=gen.gen_antenna(rng, ground=rng.choice((None, 'ideal', 'real'))))
-             for i in range(48 if q else 480)]
+             for i in range(48 if q else 1920)]
     shards = [cases[k::NCPU] for k in range(NCPU) if cases[k::NCPU]]
     res = run_workers('rep.c19', [dict(cases=s) for s in shards])
     n = sk = 0
